@@ -283,8 +283,8 @@ PROPS['C02'] = {
 
 HEAPM = 'harness.corr_heap'
 PROPS['C03'] = {
-    'targets': ['GridVerse.Props.C03'],
-    'theorem_files': [('GridVerse/Props/C03.lean', 'C03_')],
+    'targets': ['GridVerse.Props.C03', 'GridVerse.Props.C03Refine'],
+    'theorem_files': [('GridVerse/Props/C03.lean', 'C03_'), ('GridVerse/Props/C03Refine.lean', 'C03_')],
     'audit_prefix': 'C03_',
     'families': {
         'quick': [(HEAPM, 'fam_heap_smallscope', 0, 16), (HEAPM, 'fam_heap_inplace', 6000, 16), (HEAPM, 'fam_heap_step', 3000, 16), (HEAPM, 'fam_heap_obs', 3000, 16), (HEAPM, 'fam_heap_copy', 1000, 16), (ENVM, 'fam_env_shipped', 84, 16), (CORE, 'fam_spath', 2000, 16), ('harness.corr_rays', 'fam_rays', 4, 16)],
@@ -298,7 +298,7 @@ PROPS['C03'] = {
         'functools.lru_cache is modelled as a bounded association list (hit returns the stored value); callers mutating a returned cached object are outside the model and visible only to the history correspondence',
     ],
     'assumptions': ['Shaped: the grid of the input state is rectangular', 'Closed: unallocated memory holds no object contents (true of every heap built by allocation from the empty heap: C03_premises_of_load)'],
-    'level_text': 'Lean 4 theorems on a reference-level (heap) model of states: frame/ownership invariant preserved by all seven in-place transition functions, copy allocates only, observation assigns only into fresh containers; model tied to /repo by identity-level differential execution.',
+    'level_text': 'Lean 4 theorems on a reference-level (heap) model of states: frame/ownership invariant preserved by all seven in-place transition functions, copy allocates only and yields a separated representation, observation assigns only into fresh containers, and the reference-level functional step refines the pure one (C03_step_refines: reading the result back gives the pure next state of the input value, same draws); model tied to /repo by identity-level differential execution.',
 }
 
 WINM = 'harness.corr_win'
